@@ -29,7 +29,7 @@ RULES = {
 def rand_cfg(rng, kinds=("DE", "DE2", "NM", "PW")):
     kind = rng.choice(kinds)
     dim = rng.choice([1, 2, 3])
-    box = rng.choice(["none", "wide", "unit", "unit", "degenerate", "onesided", "infinite", "halfinf", "mixedinf"])
+    box = rng.choice(["none", "wide", "unit", "unit", "degenerate", "onesided", "infinite", "halfinf", "mixedinf", "shifted", "negshift"])
     tight, clip = rng.choice([(None, None)] * 4 + [(True, None), (False, None), (True, True), (None, True), (True, False)])
     cons = rng.choice(["none", "pin", "clamp", "round", "tie", "symbolic"])
     if box == "degenerate" and cons in ("round", "pin", "clamp"):
@@ -38,7 +38,13 @@ def rand_cfg(rng, kinds=("DE", "DE2", "NM", "PW")):
         tight = clip = None
     if box in ("onesided", "infinite", "halfinf", "mixedinf") and (tight or clip is not None):
         tight = clip = None        # symbolic bounds refuse infinite sides at set-up (raises; no run to observe)
-    return dict(kind=kind, dim=dim, npop=rng.choice([4, 5, 6]),
+    # how the caller writes numbers (bounds, start, constraint results): floats, python ints, integer arrays, tuples
+    spell = rng.choice(["float", "float", "int", "intarray", "tuple"])
+    # the first box replaced by a fractional sub-box before the first Step (0) or between iterations; a rounding
+    # constraint does not map the sub-box into itself, so it is not combined with it
+    box2_at = rng.choice([None, None, None, 0, 2, 3]) if box in ("wide", "unit", "shifted", "negshift") and cons != "round" else None
+    far = cons == "round" and box == "none" and rng.random() < 0.5
+    return dict(spell=spell, box2_at=box2_at, far=far, kind=kind, dim=dim, npop=rng.choice([4, 5, 6]),
                 cost=rng.choice(["sphere", "abs", "plateau", "vector", "infwall"]),
                 cons=cons, inplace=rng.random() < 0.5, pen=rng.choice(["none", "abs", "quad"]), box=box,
                 tight=tight, clip=clip, cons_at=rng.choice([0, 0, 0, 1, 2, 3]), box_at=rng.choice([0, 0, 0, 1, 2, 4]),
@@ -224,14 +230,33 @@ def run(prop, a):
             for cn in ("none", "pin", "clamp", "round", "tie", "symbolic")]
     rng.shuffle(grid)
     ngrid = 0 if light else (len(grid) * 3 if thorough else len(grid))
+    # a second systematic block: how the caller writes numbers (python ints / integer arrays / tuples for bounds, start
+    # and constraint results) x a scenario in which that matters: a rounding constraint on a start far from the origin,
+    # an integer box replaced by a fractional sub-box before the first Step or between iterations
+    sgrid = [(k, sp, sc) for k in ("DE", "DE2", "NM", "PW") for sp in ("int", "intarray", "tuple")
+             for sc in ("round-far", "round-far/b", "round-far/c", "rebox-shifted-0", "rebox-negshift-2", "rebox-unit-3", "rebox-shifted-2")]
+    rng.shuffle(sgrid)
+    nsgrid = 0 if light else len(sgrid)
     for i in range(nruns):
         cfg = _fix(rand_cfg(rng))
         if i < ngrid:
             k, tc, cn = grid[i % len(grid)]
             cfg.update(kind=k, tight=tc[0], clip=tc[1], cons=cn, cons_at=0, box_at=0, pen_at=0, box_off_at=None, via="set",
-                       box=("unit", "wide")[(i // len(grid) + i) % 2], dim=max(2, cfg["dim"]))
+                       box=("unit", "wide")[(i // len(grid) + i) % 2], dim=max(2, cfg["dim"]), far=False,
+                       box2_at=None if cn == "round" else cfg.get("box2_at"))
             if cfg["cost"] == "infwall":
                 cfg["cost"] = "sphere"
+        elif i < ngrid + nsgrid:
+            k, sp, sc = sgrid[i - ngrid]
+            cfg.update(kind=k, spell=sp, tight=None, clip=None, cons_at=0, box_at=0, pen_at=0, box_off_at=None, via="set",
+                       dim=max(2, cfg["dim"]), inplace=False, steps=7, x0out=False)
+            if cfg["cost"] in ("infwall", "vector"):
+                cfg["cost"] = "sphere"
+            if sc.startswith("round-far"):
+                cfg.update(cons="round", box="none", far=True, box2_at=None, pen="none")
+            else:
+                _, bx, at2 = sc.split("-")
+                cfg.update(cons=rng.choice(["none", "none", "tie", "pin"]), box=bx, box2_at=int(at2), far=False)
         r = ObjRun(cfg, seed=a.seed * 7919 + i)
         try:
             quiet(r.run_class_api)
